@@ -397,18 +397,18 @@ private def observe (r : Int × Nat × List (Call × Int)) : Int × List (Nat ×
 
 /-- all-continue: 13 nodes, 7 of them containers, 20 calls in document order -/
 example : observe (visit (withLog (scripted [])) (0, []) demoTree) =
-    (0, [(0,0,0),(1,0,0),(2,0,0),(3,0,0),(4,0,0),(5,0,0),(3,2,0),(6,0,0),(7,0,0),(8,0,0),(8,2,0),(6,2,0),(1,2,0),
-         (9,0,0),(10,0,0),(10,2,0),(11,0,0),(9,2,0),(12,0,0),(0,2,0)]) := by decide
+    (0, [(0,0,0),(1,0,0),(2,0,0),(3,0,0),(4,0,0),(5,0,0),(3,visitSecond,0),(6,0,0),(7,0,0),(8,0,0),(8,visitSecond,0),(6,visitSecond,0),(1,visitSecond,0),
+         (9,0,0),(10,0,0),(10,visitSecond,0),(11,0,0),(9,visitSecond,0),(12,0,0),(0,visitSecond,0)]) := by decide
 
 /-- POP on the second call for "a" (call 13) is CONTINUE: "b" and "e" are still visited; an invalid code (100) on the
 first call for the nested scalar "d" (call 17) ends the traversal with the error result -/
 example : observe (visit (withLog (scripted [(13, visitPop), (17, 100)])) (0, []) demoTree) =
-    (visitError, [(0,0,0),(1,0,0),(2,0,0),(3,0,0),(4,0,0),(5,0,0),(3,2,0),(6,0,0),(7,0,0),(8,0,0),(8,2,0),(6,2,0),
-         (1,2,visitPop),(9,0,0),(10,0,0),(10,2,0),(11,0,100)]) := by decide
+    (visitError, [(0,0,0),(1,0,0),(2,0,0),(3,0,0),(4,0,0),(5,0,0),(3,visitSecond,0),(6,0,0),(7,0,0),(8,0,0),(8,visitSecond,0),(6,visitSecond,0),
+         (1,visitSecond,visitPop),(9,0,0),(10,0,0),(10,visitSecond,0),(11,0,100)]) := by decide
 
 /-- SKIP on the array [2,3] (call 4), POP on "x" (call 6, resumes at the second call for its object), STOP on the
 second call for "a" -/
 example : observe (visit (withLog (scripted [(4, visitSkip), (6, visitPop), (8, visitStop)])) (0, []) demoTree) =
-    (0, [(0,0,0),(1,0,0),(2,0,0),(3,0,visitSkip),(6,0,0),(7,0,visitPop),(6,2,0),(1,2,visitStop)]) := by decide
+    (0, [(0,0,0),(1,0,0),(2,0,0),(3,0,visitSkip),(6,0,0),(7,0,visitPop),(6,visitSecond,0),(1,visitSecond,visitStop)]) := by decide
 
 end JsonC.Visit
